@@ -414,6 +414,25 @@ def flatten(layout) -> List[tuple]:
     return out
 
 
+def strip_guards(layout) -> List[tuple]:
+    """Layout of the non-raising executions: an alternative one of whose sides only raises is a precondition guard,
+    and the bytes produced are those of the other side."""
+    out = []
+    for f in flatten(layout or []):
+        if f[0] == "alt":
+            a, b = flatten(f[2]), flatten(f[3])
+            ra = len(a) == 1 and a[0][0] == "raise"
+            rb = len(b) == 1 and b[0][0] == "raise"
+            if ra and not rb:
+                out.extend(strip_guards(b))
+                continue
+            if rb and not ra:
+                out.extend(strip_guards(a))
+                continue
+        out.append(f)
+    return out
+
+
 def merge_consts(layout) -> List[tuple]:
     out = []
     for f in flatten(layout):
